@@ -247,17 +247,43 @@ func c14Query(c *Ctx, sx *symx.Ctx, fn *ssa.Function) {
 			if !ok {
 				continue
 			}
-			// string == "" tests
-			if s, isStr := ssau.ConstString(y); isStr && s == "" && (op == token.EQL || op == token.NEQ) {
-				failOnEq := (op == token.EQL && t.failEdge == 0) || (op == token.NEQ && t.failEdge == 1)
-				if !failOnEq {
-					continue
+			// emptiness tests in any spelling: s == "", len(s) == 0, len(strings.Fields(s)) == 0
+			if subj, emptySucc, isEmpty := c14EmptyTest(cond); isEmpty && emptySucc == t.failEdge {
+				// what is being tested for emptiness, through TrimSpace / Fields
+				v := subj
+				viaFields := false
+				var fieldsCall ssa.Value
+				for i := 0; i < 3; i++ {
+					call, ok := v.(*ssa.Call)
+					if !ok {
+						break
+					}
+					n := ssau.CallName(call)
+					if n == "strings.Fields" {
+						viaFields = true
+						fieldsCall = call
+						v = call.Common().Args[0]
+						continue
+					}
+					if n == "strings.TrimSpace" {
+						if v == subj || viaFields {
+							// TrimSpace(x) == "" and Fields(TrimSpace(x)) empty both say: x is blank
+							v = call.Common().Args[0]
+							viaFields = true
+							continue
+						}
+					}
+					break
 				}
-				if x == res {
+				if viaFields && v == ssa.Value(param) {
+					haveBlank = true
+				}
+				if subj == res {
 					haveEmpty = true
 				}
-				if ts, ok := x.(*ssa.Call); ok && ssau.CallName(ts) == "strings.TrimSpace" && ts.Common().Args[0] == ssa.Value(param) {
-					haveBlank = true
+				// the result is the Join of the very fields tested: the same as result == ""
+				if jc, ok := res.(*ssa.Call); ok && ssau.CallName(jc) == "strings.Join" && fieldsCall != nil && jc.Common().Args[0] == fieldsCall {
+					haveEmpty = true
 				}
 				continue
 			}
@@ -660,4 +686,29 @@ func c14EngineLimit(c *Ctx, tr *origin.Tracer, engine *ssa.Call, vlName string) 
 	}
 	_ = tr
 	r.Check(hasValidated && !hasRaw, "O-4", fk+"#engine-limit", c.P.Pos(engine.Pos()), "the engine limit originates from ValidateLimit (or the configured default), never from the raw flag: "+shortName(strings.Join(ds, ", ")), "the limit handed to the engine can be the unvalidated --limit flag or never passes ValidateLimit: "+shortName(strings.Join(ds, ", ")))
+}
+
+// c14EmptyTest recognises a branch condition that tests a string or a list
+// for emptiness: s == "" / s != "", or len(x) against zero in any spelling.
+// It returns the tested value and the successor on which it is empty.
+func c14EmptyTest(cond ssa.Value) (subj ssa.Value, emptySucc int, ok bool) {
+	if x, z, ok := ssau.LenZeroTest(cond); ok {
+		return x, z, true
+	}
+	op, x, y, okc := ssau.CondOf(cond)
+	if !okc {
+		return nil, 0, false
+	}
+	if s, isStr := ssau.ConstString(x); isStr && s == "" {
+		x, y = y, x
+	}
+	if s, isStr := ssau.ConstString(y); isStr && s == "" {
+		switch op {
+		case token.EQL:
+			return x, 0, true
+		case token.NEQ:
+			return x, 1, true
+		}
+	}
+	return nil, 0, false
 }
